@@ -273,10 +273,12 @@ theorem _root_.XotModel.KidsOK.right_normal {s : Bool} {v : Value} {a : List HTr
   intro y hy
   exact h2.2.1.1 y hy
 
-/-- `checked_insert_after` (cut `c`, put it right after the non-root normal node `ref`). -/
+/-- `checked_insert_after` (cut `c`, put it right after the non-root node `ref`, whose right
+    siblings are all normal). -/
 theorem checkedInsertAfter_inv {g : Forest} (hi : g.Inv) {ref c : Nat} {cv sv : Value}
     (hcv : g.value? c = some cv) (hcn : cv.category = .normal) (hcd : cv.isDocument = false)
-    (hsv : g.value? ref = some sv) (hsn : sv.category = .normal)
+    (hsv : g.value? ref = some sv)
+    (hright : ∀ ctx, g.ctx? ref = some ctx → ∀ y ∈ ctx.right, y.value.category = .normal)
     (hroot : g.isRoot ref = false) (hanc : (g.ancestors ref).contains c = false)
     (hcut : g.CutOK c)
     (htext : g.everOff = false → cv.isText = true → sv.isText = false ∧
@@ -319,15 +321,15 @@ theorem checkedInsertAfter_inv {g : Forest} (hi : g.Inv) {ref c : Nat} {cv sv : 
         have K0 := (kidsOK_iff _ _ _).mp k1
         have K1 : KidsOK (!g.everOff) pv ((rk c lr ++ [rb c S]) ++ rk c rr) := by simpa using K0
         have hpk := parent_kind_of_kidsOK K0 (k := rb c S) (by simp)
-        have hSn : (rb c S).value.category = .normal := by rw [rb_value, hSv]; exact hsn
+        obtain ⟨pp, hctx0⟩ := ctx?_of_loc_ne locr hne hi.nodup
         refine K1.insert (by rw [htv]; exact kidAllowed_of_parent hpk hcn hcd) ?_ ?_ (Or.inl (by rw [htv]; exact hcn)) ?_
         · intro y _
           simp only [rankOf, htv, hcn, Category.rank]
           exact rank_le_two _
         · intro y hy
-          have := K0.right_normal hSn y hy
-          rw [rankOf_normal hSn] at this
-          simpa [rankOf, htv, hcn, Category.rank] using this
+          obtain ⟨z, hz, e1, _⟩ := mem_rk hy
+          have := hright _ hctx0 z hz
+          simp [rankOf, htv, hcn, e1, this]
         · intro hs htt
           obtain ⟨e1, e2⟩ := htext (by simpa using hs) (by rw [← htv]; exact htt)
           refine ⟨by simp [hSv, e1], ?_⟩
@@ -402,6 +404,28 @@ theorem checkedInsertBefore_inv {g : Forest} (hi : g.Inv) {ref c : Nat} {cv sv :
           exact e2 _ hctx
     · simp only [validList_append, validList_cons, Bool.and_eq_true] at k2 ⊢
       exact ⟨k2.1, htvalid, k2.2.1, k2.2.2⟩
+
+/-- In a valid forest everything to the right of a normal node is normal. -/
+theorem right_normal_of_normal {g : Forest} (hi : g.Inv) {ref : Nat} {sv : Value}
+    (hsv : g.value? ref = some sv) (hsn : sv.category = .normal) :
+    ∀ ctx, g.ctx? ref = some ctx → ∀ y ∈ ctx.right, y.value.category = .normal := by
+  intro ctx hctx y hy
+  obtain ⟨path, lr, S, rr, locr⟩ := exists_loc (mem_allHandles_of_isLive (isLive_of_value? hsv))
+  have hSv : S.value = sv := by
+    have := value?_of_loc locr hi.nodup; rw [hsv] at this; exact (Option.some.inj this).symm
+  rcases List.eq_nil_or_concat path with hp0 | ⟨init, fr, hp0⟩
+  · subst hp0; rw [ctx?_of_loc_nil locr hi.nodup] at hctx; cases hctx
+  rw [List.concat_eq_append] at hp0
+  subst hp0
+  rw [ctx?_of_loc_snoc locr hi.nodup] at hctx
+  cases hctx
+  obtain ⟨k1, _⟩ := hi.kids_at locr.eq
+  rw [innerValue_snoc] at k1
+  have K0 := (kidsOK_iff _ _ _).mp k1
+  have hSn : S.value.category = .normal := by rw [hSv]; exact hsn
+  have := K0.right_normal hSn y hy
+  rw [rankOf_normal hSn] at this
+  exact category_normal_of_rank this
 
 end Forest
 end XotModel
